@@ -136,9 +136,9 @@ def _iwp_transition(sp, fi):
                 # scalar preparation (asperity default, dt broadcast) or the first array statement
                 if isinstance(v, ast.IfExp) and t in env:
                     continue  # `asperity = 0.0 if asperity is None else asperity`, `dt = ones*dt if scalar else dt`
-                if isinstance(v, ast.BinOp) and isinstance(v.op, ast.Mult) and src(v.right) == xi_n:
+                if isinstance(v, ast.BinOp) and isinstance(v.op, ast.Mult) and xi_n in (src(v.right), src(v.left)):
                     arr = t
-                    a = _scalar(sp, v.left, env)
+                    a = _scalar(sp, v.left if src(v.right) == xi_n else v.right, env)
                     inc = [a * xi[0], a * xi[1]]
                     continue
                 raise NotUnderstood(f"`{short(st)}`")
@@ -301,7 +301,9 @@ def run(ctx):
                 for g in gen:
                     rr = [r for r in walk_no_nested(g) if isinstance(r, ast.Return)]
                     if len(rr) == 1 and isinstance(rr[0].value, ast.BinOp) and isinstance(rr[0].value.op, ast.Mult):
-                        right = rr[0].value.right
+                        sides = [rr[0].value.left, rr[0].value.right]
+                        right = [x_ for x_ in sides if isinstance(x_, ast.IfExp)] or [x_ for x_ in sides if "sig" in src(x_)] or [sides[1]]
+                        right = right[0]
                         x0amp = src(right.body) if isinstance(right, ast.IfExp) else src(right)
                 sigdef = None
                 for g in gen:
